@@ -2502,10 +2502,14 @@ void prepare_cases (parse_node_t * pn, size_t start) {
           save_file_info (current_file_id, current_line - current_line_saved);
           current_line_saved = current_line;
 
-          translate_absolute_line ((*ce)->line, (unsigned short *) mem_block[A_FILE_INFO].block, mem_block[A_FILE_INFO].current_size, &fi1, &l1);
-          translate_absolute_line ((*(ce - 1))->line, (unsigned short *) mem_block[A_FILE_INFO].block, mem_block[A_FILE_INFO].current_size, &fi2, &l2);
-          f1 = PROG_STRING (fi1);
-          f2 = PROG_STRING (fi2);
+          /* file ids are 1-based indices into the program's string table (see find_line()) */
+          f1 = f2 = 0;
+          if (0 == translate_absolute_line ((*ce)->line, (unsigned short *) mem_block[A_FILE_INFO].block, mem_block[A_FILE_INFO].current_size, &fi1, &l1)
+              && fi1 >= 1 && (size_t)fi1 <= mem_block[A_STRINGS].current_size / sizeof (char *))
+            f1 = PROG_STRING (fi1 - 1);
+          if (0 == translate_absolute_line ((*(ce - 1))->line, (unsigned short *) mem_block[A_FILE_INFO].block, mem_block[A_FILE_INFO].current_size, &fi2, &l2)
+              && fi2 >= 1 && (size_t)fi2 <= mem_block[A_STRINGS].current_size / sizeof (char *))
+            f2 = PROG_STRING (fi2 - 1);
 
           p = strput (buf, buf_end, "Overlapping cases: ");
           if (f1)
